@@ -22,30 +22,39 @@
 (* violation).                                                             *)
 (***************************************************************************)
 EXTENDS FromSamples, Json, IOUtils
-CONSTANT NTRACES
-Traces == JsonDeserialize(IOEnv.TRACE_FILE)
-VARIABLES tid, done
-tvars == <<tid, done>>
+CONSTANT NCHUNKS
+\* the file is parsed once (TInit); Split hands one chunk of records to each successor state (explored in parallel),
+\* Check validates the records of a chunk
+VARIABLES todo, base, ph
+tvars == <<todo, base, ph>>
 
-Match(mp, o, r) == IF mp.kind = "counts"
-                   THEN {o[i] : i \in 1..Len(o)} = r /\ Len(o) = Cardinality(r)
-                   ELSE o = r
-Expected(t, Y) == IF t.via = "counts" THEN ResultC(t.mp, FullCounts(Y, t.nw), t.nw) ELSE Result(t.mp, Y, t.nw)
+Match(kind, o, r) == IF kind = "counts"
+                     THEN {o[i] : i \in 1..Len(o)} = r /\ Len(o) = Cardinality(r)
+                     ELSE o = r
+\* cm: the compiled measurement process; y: the shots (indices + 1) the statistic is taken over
+Expected(t, cm, y) == IF t.via = "counts" THEN ResultC(cm, FullCounts(y, t.nw)) ELSE Result(cm, y)
 WellFormed(t) == /\ 0 <= t.lo /\ t.lo < t.hi /\ t.hi <= Len(t.X)
                  /\ \A i \in 1..Len(t.X) : Len(t.X[i]) = t.nw
                  /\ (t.bs > 0 => (t.hi - t.lo) % t.bs = 0 /\ Len(t.o) = (t.hi - t.lo) \div t.bs)
                  /\ (t.via = "counts" => t.mp.kind # "sample" /\ t.bs = 0)
 Verdict(t) ==
   IF ~WellFormed(t) THEN "malformed"
-  ELSE LET Y == TLCEval(ShotRange(t.X, t.lo, t.hi)) IN
-       IF t.bs = 0 THEN (IF Match(t.mp, t.o, Expected(t, Y)) THEN "ok" ELSE "mismatch")
-       ELSE LET nb == Len(Y) \div t.bs
-                cb == TLCEval(BinsContig(Y, t.bs))
-                sb == TLCEval(BinsStrided(Y, t.bs))
-            IN IF \A b \in 1..nb : Match(t.mp, t.o[b], Expected(t, cb[b])) THEN "ok"
-               ELSE IF \A b \in 1..nb : Match(t.mp, t.o[b], Expected(t, sb[b])) THEN "ok-strided"
+  ELSE LET cm == TLCEval(Compile(t.mp, t.nw))
+           y == TLCEval(ShotRange(IndicesOf(t.X, t.nw), t.lo, t.hi)) IN
+       IF t.bs = 0 THEN (IF Match(cm.kind, t.o, Expected(t, cm, y)) THEN "ok" ELSE "mismatch")
+       ELSE LET nb == Len(y) \div t.bs
+                cb == TLCEval(BinsContig(y, t.bs))
+                sb == TLCEval(BinsStrided(y, t.bs))
+            IN IF \A b \in 1..nb : Match(cm.kind, t.o[b], Expected(t, cm, cb[b])) THEN "ok"
+               ELSE IF \A b \in 1..nb : Match(cm.kind, t.o[b], Expected(t, cm, sb[b])) THEN "ok-strided"
                ELSE "mismatch"
-TInit == tid \in 1..NTRACES /\ done = FALSE
-TNext == /\ ~done /\ done' = TRUE /\ UNCHANGED tid
-         /\ PrintT(<<"V", tid, Verdict(Traces[tid])>>)
+TInit == todo = JsonDeserialize(IOEnv.TRACE_FILE) /\ base = 0 /\ ph = 0
+Split == /\ ph = 0 /\ ph' = 1
+         /\ LET n == Len(todo)  sz == (n + NCHUNKS - 1) \div NCHUNKS IN
+            \E c \in 0..(NCHUNKS - 1) : /\ c * sz < n
+                                       /\ base' = c * sz
+                                       /\ todo' = SubSeq(todo, c * sz + 1, IF (c + 1) * sz < n THEN (c + 1) * sz ELSE n)
+Check == /\ ph = 1 /\ ph' = 2 /\ base' = base /\ todo' = <<>>
+         /\ \A i \in 1..Len(todo) : LET t == todo[i] IN PrintT(<<"V", base + i, Verdict(t)>>)
+TNext == Split \/ Check
 =============================================================================
